@@ -15,8 +15,8 @@ exceptions of library calls are out of scope (DESIGN.md).
 """
 import ast
 
-from .. import flow, kernels, universe
-from ..model import norm, AnalysisError
+from .. import flow, kernels, universe, astutil
+from ..model import norm, AnalysisError, const_value
 
 MUTATORS = {'append', 'extend', 'clear', 'update', 'pop', 'popitem', 'remove', 'insert', 'sort', 'reverse', 'fill',
             'setdefault', 'add', 'discard', 'resize', 'itemset', 'setflags', 'put', 'partition', 'byteswap'}
@@ -196,6 +196,78 @@ def analyse(ctx, prog, ci, entry, rule, sites):
     return fl
 
 
+def implicit_shape_rejections(ctx, prog, rule):
+    """a batch dimension that no explicit check of `_update` compares with the state (e.g. the number of data words in CPA) is
+    refused by numpy itself, at the first in-place accumulation into an array that has that dimension; every accumulation that
+    runs before it has already added the batch when the exception leaves update(), and the dictionary snapshot cannot undo an
+    in-place `+=`.  Rule: for every unchecked batch dimension the first accumulation involving it is the first accumulation."""
+    n = 0
+    allc, concrete = universe.distinguisher_classes(prog)
+    seen = set()
+    for ci in concrete:
+        upd, ini = prog.resolve_method(ci, '_update'), prog.resolve_method(ci, '_initialize')
+        if upd is None or ini is None or upd.key in seen:
+            continue
+        seen.add(upd.key)
+        stmts = astutil.stmts_of(upd.node)
+        accs = [st for st in stmts if isinstance(st, ast.AugAssign) and isinstance(st.target, ast.Attribute) and norm(st.target.value) == 'self']
+        if len(accs) < 2:
+            continue
+        ipos = {p_: i_ for i_, p_ in enumerate([p_ for p_ in ini.params if p_ != 'self'])}
+        upos = {p_: i_ for i_, p_ in enumerate([p_ for p_ in upd.params if p_ != 'self'])}
+
+        def dim_symbol(e, pos):
+            if isinstance(e, ast.Subscript) and isinstance(e.value, ast.Attribute) and e.value.attr == 'shape' and isinstance(e.value.value, ast.Name) and e.value.value.id in pos:
+                k = const_value(e.slice)
+                if isinstance(k, int):
+                    return (pos[e.value.value.id], k)
+            return None
+        local = {}
+        for st in ast.walk(ini.node):
+            if isinstance(st, ast.Assign) and len(st.targets) == 1 and isinstance(st.targets[0], ast.Name):
+                d = dim_symbol(st.value, ipos)
+                if d is not None:
+                    local[st.targets[0].id] = d
+        acc_dims = {}
+        for st in ast.walk(ini.node):
+            if isinstance(st, ast.Assign) and len(st.targets) == 1 and isinstance(st.targets[0], ast.Attribute) and norm(st.targets[0].value) == 'self' and isinstance(st.value, ast.Call) and st.value.args:
+                shp = st.value.args[0]
+                elts = shp.elts if isinstance(shp, (ast.Tuple, ast.List)) else [shp]
+                dims = set()
+                for e in elts:
+                    d = local.get(e.id) if isinstance(e, ast.Name) else dim_symbol(e, ipos)
+                    if d is not None:
+                        dims.add(d)
+                acc_dims[st.targets[0].attr] = dims
+        checked = set()
+        ulocal = {}
+        for st in ast.walk(upd.node):
+            if isinstance(st, ast.Assign) and len(st.targets) == 1 and isinstance(st.targets[0], ast.Name) and dim_symbol(st.value, upos) is not None:
+                ulocal[st.targets[0].id] = dim_symbol(st.value, upos)     # a size read into a local (rebinding the array by a cast does not change it)
+            elif isinstance(st, ast.Assign) and len(st.targets) == 1 and isinstance(st.targets[0], ast.Tuple) and isinstance(st.value, ast.Tuple) and len(st.targets[0].elts) == len(st.value.elts):
+                for t_, v_ in zip(st.targets[0].elts, st.value.elts):
+                    if isinstance(t_, ast.Name) and dim_symbol(v_, upos) is not None:
+                        ulocal[t_.id] = dim_symbol(v_, upos)
+        for st in stmts:
+            if isinstance(st, ast.If) and st.body and isinstance(st.body[-1], ast.Raise):
+                for e in ast.walk(st.test):
+                    d = dim_symbol(e, upos) or (ulocal.get(e.id) if isinstance(e, ast.Name) else None)
+                    if d is not None:
+                        checked.add(d)
+        names = {v: k for k, v in upos.items()}
+        for u in sorted({d for a in accs for d in acc_dims.get(a.target.attr, ())} - checked):
+            n += 1
+            first = next(i for i, a in enumerate(accs) if u in acc_dims.get(a.target.attr, ()))
+            key = f'{upd.key}::unchecked dimension {names.get(u[0], u[0])}.shape[{u[1]}]'
+            if first == 0:
+                ctx.ok(rule, key, f'no explicit check: a mismatch is refused by numpy at the first accumulation `{norm(accs[0])[:50]}`, before any state was changed', upd.where(accs[0]))
+            else:
+                ctx.fail(rule, key, f'a batch whose {names.get(u[0], u[0])}.shape[{u[1]}] differs from the accumulated state is refused only by numpy, at `{norm(accs[first])[:50]}` - after '
+                         f'`{norm(accs[0])[:50]}` (and {first - 1} more) have already added the batch in place: the refused batch stays in {", ".join("self." + a.target.attr for a in accs[:first])} '
+                         f'while the trace count does not include it', upd.where(accs[first]))
+    return n
+
+
 def rejection_clause(ctx, prog, classes, rule, entry='update'):
     """the C16 analysis instantiated for a family of classes under another property's rule id: a refused batch (explicit raise
     reachable from `entry`) leaves no partial contribution behind.  Returns the number of raise sites judged."""
@@ -257,6 +329,20 @@ def run(ctx, prog):
         else:
             ctx.ok(rule, key, f'{rec["paths"]} paths over {len(rec["classes"])} classes end here with no residual effect',
                    where=rec['where'], classes=sorted(rec['classes']))
+    ctx.rule('C16-D3', 'a batch dimension without an explicit check is refused by numpy at the first in-place accumulation involving it: that accumulation must be the first one')
+    ctx.floor('unchecked batch dimensions judged', implicit_shape_rejections(ctx, prog, 'C16-D3'), 1)
+    ctx.rule('C16-D4', 'the trace count is incremented after every call that can refuse the batch (concrete _update, kernels, numpy): an implicitly refused batch is not counted')
+    from .. import kernelrules as _kr
+    _base = prog.need_class(*universe.DIST_BASE)
+    _upd = _base.methods.get('update')
+    for kind_, node_, text_ in _kr.count_after_last_call(_upd, 'processed_traces'):
+        k4 = f'{_upd.key}::count after the last call'
+        if kind_ == 'ok':
+            ctx.ok('C16-D4', k4, text_, _upd.where(node_))
+        elif kind_ == 'bad':
+            ctx.fail('C16-D4', k4, text_, _upd.where(node_))
+        else:
+            ctx.undecided('C16-D4', k4, text_, _upd.where())
     ctx.floor('concrete distinguisher classes', len(concrete), 22)
     ctx.floor('explicit raise sites reachable from update', n_sites['C16-D1'], 20)
     ctx.floor('explicit raise sites reachable from process', n_sites['C16-D2'], 15)
